@@ -385,7 +385,7 @@ def redirect_worker(_job):
         process.exit(0)
     scenarios = ['input-bytes', 'stdin-path', 'stdin-file', 'stdout-path', 'stdout-file', 'devnull', 'proc-to-proc',
                  'stderr-to-stdout', 'send-eof-false', 'stdout-asyncfile', 'stderr-asyncfile', 'both-asyncfile-wait',
-                 'stdout-streamwriter', 'asyncfile-check']
+                 'stdout-streamwriter', 'asyncfile-check', 'stdin-streamreader-text', 'stdin-streamreader-text-small-buf', 'stdin-asyncfile-text']
 
     class AsyncFile:
         """aiofiles-style target: write() and close() are coroutines that really suspend (virtual timer)"""
@@ -465,6 +465,33 @@ def redirect_worker(_job):
                         p = await c.create_process('x', stdout=fo2, encoding=None)
                         o, e = await p.communicate(small)
                         out['ok'] = fo2.got() == small and p.exit_status == 0
+                elif sc.startswith('stdin-streamreader-text') or sc == 'stdin-asyncfile-text':
+                    # text-mode process fed from a byte source that hands over a multi-byte character in pieces
+                    text = 'price: \u20ac5 \U0001d11e caf\u00e9\n' * 3
+                    raw = text.encode('utf-8')
+                    cuts = [raw[:8], raw[8:9], raw[9:11], raw[11:14], raw[14:15], raw[15:]]
+                    if sc == 'stdin-asyncfile-text':
+                        class Src:
+                            def __init__(self):
+                                self.parts = list(cuts)
+
+                            async def read(self, n=-1):
+                                await asyncio.sleep(0.01)
+                                return self.parts.pop(0) if self.parts else b''
+
+                            async def close(self):
+                                pass
+                        p = await c.create_process('x', stdin=Src())
+                    else:
+                        rd = asyncio.StreamReader()
+                        kw_ = dict(bufsize=2) if sc.endswith('small-buf') else {}
+                        p = await c.create_process('x', stdin=rd, **kw_)
+                        for part in cuts:
+                            rd.feed_data(part)
+                            await asyncio.sleep(0.01)
+                        rd.feed_eof()
+                    r = await p.wait()
+                    out['ok'] = r.stdout == text and r.stderr == str(len(raw)) and r.exit_status == 0
                 elif sc == 'stdout-streamwriter':
                     got = []
 
@@ -1463,7 +1490,7 @@ def main(tier, seed):
     rule = ('(a) 7 byte streams + a 3-window stream + a multi-byte text stream x 15 read-call menus (read n / -1 / 0, '
             'readexactly, readline, readuntil with one, several and regex separators incl. overlapping prefixes) x '
             'max packet sizes {1,2,3,5,32768} x packet delivery orders within the deviation bound; (b) %d orders of '
-            'stdout/stderr data, EOF, exit-status|exit-signal before CLOSE from the independent peer; (c) 14 '
+            'stdout/stderr data, EOF, exit-status|exit-signal before CLOSE from the independent peer; (c) 17 '
             'redirection kinds (incl. targets written asynchronously: coroutine write()/close() suspended on the clock, a StreamWriter), and stdout/stderr of a running process redirected to a path / file / other process / DEVNULL '
             'after every number 0..25 of packet deliveries (stream buffer empty, full with the channel paused, after '
             'EOF, after exit), with and without a read before; stdout or stderr of one process made the stdin of another '
